@@ -20,13 +20,16 @@ const modPath = "github.com/boombuler/barcode"
 // Prog is the resolved program: type-checked syntax and SSA of every package of /repo's
 // current working tree (non-test files), plus the canary overlay files.
 type Prog struct {
-	immut   map[*ssa.Global]bool
-	written map[*ssa.Global]bool
-	RepoDir string
-	Fset    *token.FileSet
-	Pkgs    map[string]*packages.Package // key: short name ("barcode", "qr", "utils", ...)
-	SSA     *ssa.Program
-	SSAPkgs map[string]*ssa.Package
+	renameBack      map[*ssa.Function]string
+	renamesBuilt    bool
+	buildingRenames bool
+	immut           map[*ssa.Global]bool
+	written         map[*ssa.Global]bool
+	RepoDir         string
+	Fset            *token.FileSet
+	Pkgs            map[string]*packages.Package // key: short name ("barcode", "qr", "utils", ...)
+	SSA             *ssa.Program
+	SSAPkgs         map[string]*ssa.Package
 	// all source-level functions (incl. anonymous) of repo packages, canaries excluded
 	Funcs         []*ssa.Function
 	CanaryFuncs   []*ssa.Function
@@ -168,7 +171,37 @@ func (p *Prog) IsCanaryPos(pos token.Pos) bool {
 }
 
 // FuncName gives a stable, line-free name: pkg.Func, pkg.(*T).M, pkg.Func$1
+// FuncName: the reference name of fn ("pkg.Func", "pkg.(*T).Method", closures "parent$k"). A
+// function that was renamed (recognised by its unique signature, see renamedFunc) keeps the name it
+// has on the reference tree, so that rules, role bindings and normal forms do not depend on it.
 func (p *Prog) FuncName(fn *ssa.Function) string {
+	if fn == nil {
+		return "<nil>"
+	}
+	if !p.renamesBuilt && !p.buildingRenames {
+		p.buildingRenames = true
+		p.renameBack = map[*ssa.Function]string{}
+		have := map[string]bool{}
+		for _, f := range p.Funcs {
+			have[p.rawFuncName(f)] = true
+		}
+		for name := range refFuncSigs {
+			if !have[name] {
+				if f := p.renamedFunc(name); f != nil {
+					p.renameBack[f] = name
+				}
+			}
+		}
+		p.buildingRenames = false
+		p.renamesBuilt = true
+	}
+	if n, ok := p.renameBack[fn]; ok && !p.buildingRenames {
+		return n
+	}
+	return p.rawFuncName(fn)
+}
+
+func (p *Prog) rawFuncName(fn *ssa.Function) string {
 	if fn == nil {
 		return "<nil>"
 	}
